@@ -40,7 +40,7 @@ def r1_purge_guard(ctx):
     """C04.R1 GTT + EFFECT-SITES: every append to State.purging_queue obeys
     (no consumer left) and (not requested or value present)."""
     repo = ctx.repo
-    sites = list(scan().attr_sites("purging_queue"))
+    sites = list(scan().attr_sites("purging_queue", owner="cascade.scheduler.core.State"))
     appenders = {}
     for fi, n, kind, det in sites:
         if kind == "mutcall" and det in ("append", "extend", "insert", "appendleft"):
@@ -251,7 +251,7 @@ def r6_fetch_queue(ctx):
     source is the publishing host of the event."""
     repo = ctx.repo
     writers = {}
-    for fi, n, kind, det in scan().attr_sites("fetching_queue"):
+    for fi, n, kind, det in scan().attr_sites("fetching_queue", owner="cascade.scheduler.core.State"):
         if kind in ("substore", "store", "aug") or (kind == "mutcall" and det in ("update", "setdefault", "__setitem__")):
             writers.setdefault(fi.qual, (fi, []))[1].append(n)
     if f"{NOTIFY}.consider_fetch" not in writers:
@@ -305,7 +305,7 @@ def r7_available_writers(ctx):
     repo = ctx.repo
     n_sites = 0
     for attr in ("ds2host", "host2ds"):
-        for fi, n, kind, det in scan().attr_sites(attr):
+        for fi, n, kind, det in scan().attr_sites(attr, owner="cascade.scheduler.core.State"):
             if kind != "substore":
                 continue
             asg = next((a for a in walk_scope(fi.node) if isinstance(a, ast.Assign) and n in a.targets), None)
@@ -359,3 +359,4 @@ RULES = [r_no_downgrade, r1_purge_guard, r2_tracker_removal, r3_r4_flush, r_tran
 
 from .common import lazy  # noqa: E402
 RULES.append(lazy("C16", "r1_projections", "the purge tracker is initialised from the preschedule's consumer map: a consumer missing there lets its input be purged early"))
+RULES.append(lazy("C03", "r6_loop_wiring", "every requested output is known to the scheduler (else it is purged as unneeded)"))
